@@ -15,7 +15,8 @@ from sim.core.engine import Engine, RunResult
 from sim.core.prng import digest, weighted
 
 DEFAULT_OPTIONS = {"strictness": "relaxed", "limit_rules": [], "limit_categories": [], "tta": True,
-                   "tta_threshold": 0.65, "cutoff_mult": 1.0, "nbh_mult": 1.5}
+                   "tta_threshold": 0.65, "cutoff_mult": 1.0, "nbh_mult": 1.5,
+                   "tfbs": False, "tfbs_pvalue": 0.0005, "tfbs_range": 50}
 HMM_KEYS = ("strictness", "limit_rules", "limit_categories", "cutoff_mult", "nbh_mult")
 SCHEMA_TARGETS = ["HMMDetectionResults", "RuleDetectionResults", "TTAResults", "NRPSPKSDomains", "SideloadedResults",
                   "AntismashResults"]
@@ -35,6 +36,10 @@ def option_args(options: Dict[str, Any], fungi: bool) -> List[str]:
     args += ["--tta-threshold", str(options["tta_threshold"])]
     if options["tta"]:
         args += ["--enable-tta"]
+    args += ["--tfbs-pvalue", repr(float(options.get("tfbs_pvalue", 0.00001))), "--tfbs-range",
+             str(options.get("tfbs_range", 50))]
+    if options.get("tfbs"):
+        args += ["--tfbs"]
     if fungi:
         args += ["--taxon", "fungi", "--hmmdetection-fungal-cutoff-multiplier", str(options["cutoff_mult"]),
                  "--hmmdetection-fungal-neighbourhood-multiplier", str(options["nbh_mult"])]
@@ -153,6 +158,8 @@ class ReuseHistory(Engine):
         options = dict(DEFAULT_OPTIONS)
         options["strictness"] = rng.choice(["relaxed", "relaxed", "strict", "loose"])
         options["tta"] = rng.random() < 0.8
+        options["tfbs"] = rng.random() < 0.4
+        options["tfbs_pvalue"] = rng.choice([0.00001, 0.0005, 0.002])
         steps = [{"options": copy.deepcopy(options), "salt": 0}]
         count = rng.randint(1, 4)
         for index in range(count):
@@ -162,7 +169,8 @@ class ReuseHistory(Engine):
             step: Dict[str, Any] = {"salt": rng.randrange(1, 1 << 30)}
             if kind == "change":
                 options = copy.deepcopy(options)
-                what = rng.choice(["strictness", "limit_rules", "limit_categories", "tta_threshold", "tta", "multipliers"])
+                what = rng.choice(["strictness", "limit_rules", "limit_categories", "tta_threshold", "tta", "multipliers",
+                                   "tfbs", "tfbs_pvalue", "tfbs_range"])
                 if what == "strictness":
                     options["strictness"] = rng.choice([s for s in ("strict", "relaxed", "loose") if s != options["strictness"]])
                 elif what == "limit_rules":
@@ -173,6 +181,12 @@ class ReuseHistory(Engine):
                     options["tta_threshold"] = rng.choice([t for t in (0.1, 0.65, 0.95) if t != options["tta_threshold"]])
                 elif what == "tta":
                     options["tta"] = not options["tta"]
+                elif what == "tfbs":
+                    options["tfbs"] = not options["tfbs"]
+                elif what == "tfbs_pvalue":
+                    options["tfbs_pvalue"] = rng.choice([p for p in (0.00001, 0.0005, 0.002) if p != options["tfbs_pvalue"]])
+                elif what == "tfbs_range":
+                    options["tfbs_range"] = 120 if options["tfbs_range"] == 50 else 50
                 else:
                     options["cutoff_mult"] = rng.choice([1.0, 2.0])
                     options["nbh_mult"] = rng.choice([1.5, 1.0])
@@ -242,7 +256,7 @@ class ReuseHistory(Engine):
 EXPECTED_PROBES = ["reuse_unchanged_ok", "region_with_2_protoclusters", "nrps_pks_modules_present", "tta_codons_present",
                    "refusal_observed", "recompute_observed", "changed_options_equal_fresh", "schema_bump_discarded",
                    "foreign_record_discarded", "failed_invocation_in_history", "sideloaded_areas_present",
-                   "origin_spanning_protocluster"]
+                   "origin_spanning_protocluster", "tfbs_hits_present"]
 
 
 def _load(path: str) -> Optional[Dict[str, Any]]:
@@ -336,8 +350,8 @@ class _History:
                     self._judge_schema(step, result, regen, state)
                     break
                 changed = [key for key in step["options"] if step["options"][key] != good_options[key]]
-                if changed == ["tta"] and not step["options"]["tta"]:
-                    changed = []      # TTA no longer requested: the stored TTA results stay as they are
+                if changed in (["tta"], ["tfbs"]) and not step["options"][changed[0]]:
+                    changed = []      # an analysis is no longer requested: its stored results stay as they are
                 if not changed:
                     new_state = self._judge_unchanged(label, result, outdir, state, regen, runs)
                 else:
@@ -382,6 +396,8 @@ class _History:
                 res.probe("nrps_pks_modules_present")
             if modules.get("antismash.modules.tta", {}).get("TTA codons"):
                 res.probe("tta_codons_present")
+            if any(modules.get("antismash.modules.tfbs_finder", {}).get("hits_by_region", {}).values()):
+                res.probe("tfbs_hits_present")
             side = modules.get("antismash.detection.sideloader", {})
             if side.get("subregions") or side.get("protoclusters"):
                 res.probe("sideloaded_areas_present")
